@@ -170,7 +170,14 @@ static void sp_leak_seq(const char *name, void (*seq)(void), const char *what) {
   if (grew == 3) sw_violation(name, "leak", "", what); }
 
 static const int sp_M[] = { -2, -1, 0, 1, 2, 3, 4 };
-static const double sp_CE[] = { -1.0, 0.0, 0.5, 3.0, 8.0, 17.4, 100.0 };
+static const double sp_CE[] = { -1.0, 0.0, 0.5, 3.0, 8.0, 17.4, 100.0, /* codes: energies aimed at the no-reflection cut-off of the reflection */ -101, -102, -103, -104, -105, -106 };
+/* the energy below which (h k l) does not reflect is hc/(2 d): the exact double, its neighbours, and the same quantity rounded along other paths */
+static double sp_energy(Crystal_Struct *c, int i, int j, int k, double code) { double d, E0;
+  if (code > -100.0) return code;
+  d = c ? Crystal_dSpacing(c, i, j, k, NULL) : 0.0; if (!(d > 0.0)) return 8.0;
+  E0 = KEV2ANGST / (2.0 * d);
+  switch ((int)code) { case -101: return E0; case -102: return nextafter(E0, INFINITY); case -103: return nextafter(E0, 0.0);
+    case -104: return (KEV2ANGST / d) / 2.0; case -105: return 0.5 * KEV2ANGST / d; default: return E0 * (1.0 + 1e-12); } }
 static const double sp_DB[] = { -1.0, 0.0, 0.5, 1.0 };
 static const double sp_RL[] = { 0.0, 0.5, 1.0, 1.5, -1.0 };
 static const int sp_FL[] = { -1, 0, 1, 2, 3 };
@@ -185,29 +192,29 @@ static void cb_vol(const int *idx, void *u) { Crystal_Struct *c = sp_crs[idx[0]]
   v = Crystal_UnitCellVolume(c, &e); v2 = Crystal_UnitCellVolume(c, NULL);
   if (xv_bits(v) != xv_bits(v2)) sw_violation("Crystal_UnitCellVolume", "slot-dependent-result", "", sp_w);
   sw_contract(F_Vol, e, v == 0.0, isfinite(v), v == 0.0, sp_w); }
-static void cb_bragg(const int *idx, void *u) { Crystal_Struct *c = sp_crs[idx[0]]; int i = sp_M[idx[1]], j = sp_M[idx[2]], k = sp_M[idx[3]]; double E = sp_CE[idx[4]]; xrl_error *e = NULL; double v, v2; (void)u;
-  SP_LAST("Bragg_angle(%s,%g,%d,%d,%d)", c ? c->name : "NULL", E, i, j, k);
+static void cb_bragg(const int *idx, void *u) { Crystal_Struct *c = sp_crs[idx[0]]; int i = sp_M[idx[1]], j = sp_M[idx[2]], k = sp_M[idx[3]]; double E = sp_energy(c, i, j, k, sp_CE[idx[4]]); xrl_error *e = NULL; double v, v2; (void)u;
+  SP_LAST("Bragg_angle(%s,%.17g,%d,%d,%d)", c ? c->name : "NULL", E, i, j, k);
   v = Bragg_angle(c, E, i, j, k, &e); v2 = Bragg_angle(c, E, i, j, k, NULL);
   if (xv_bits(v) != xv_bits(v2) && !(isnan(v) && isnan(v2))) sw_violation("Bragg_angle", "slot-dependent-result", "", sp_w);
   sw_contract(F_Bragg, e, v == 0.0, isfinite(v), v == 0.0, sp_w); }
-static void cb_qs(const int *idx, void *u) { Crystal_Struct *c = sp_crs[idx[0]]; int i = sp_M[idx[1]], j = sp_M[idx[2]], k = sp_M[idx[3]]; double E = sp_CE[idx[4]], rl = sp_RL[idx[5]]; xrl_error *e = NULL; double v, v2; (void)u;
-  SP_LAST("Q_scattering_amplitude(%s,%g,%d,%d,%d,%g)", c ? c->name : "NULL", E, i, j, k, rl);
+static void cb_qs(const int *idx, void *u) { Crystal_Struct *c = sp_crs[idx[0]]; int i = sp_M[idx[1]], j = sp_M[idx[2]], k = sp_M[idx[3]]; double E = sp_energy(c, i, j, k, sp_CE[idx[4]]), rl = sp_RL[idx[5]]; xrl_error *e = NULL; double v, v2; (void)u;
+  SP_LAST("Q_scattering_amplitude(%s,%.17g,%d,%d,%d,%g)", c ? c->name : "NULL", E, i, j, k, rl);
   v = Q_scattering_amplitude(c, E, i, j, k, rl, &e); v2 = Q_scattering_amplitude(c, E, i, j, k, rl, NULL);
   if (xv_bits(v) != xv_bits(v2) && !(isnan(v) && isnan(v2))) sw_violation("Q_scattering_amplitude", "slot-dependent-result", "", sp_w);
   sw_contract(F_Qs, e, v == 0.0, isfinite(v), 0, sp_w); }
 typedef struct { Crystal_Struct *c; double E, db, rl; int i, j, k, f0, f1, f2; } fh_a;
 static void redo_fh(void *u) { fh_a *a = (fh_a *)u; xrl_error *e = NULL; Crystal_F_H_StructureFactor_Partial(a->c, a->E, a->i, a->j, a->k, a->db, a->rl, a->f0, a->f1, a->f2, &e); if (e) xrl_error_free(e); }
 static void cb_fhp(const int *idx, void *u) { fh_a a; xrl_error *e = NULL; xrlComplex z1, z2; size_t b0; (void)u;
-  a.c = sp_crs[idx[0]]; a.i = sp_M[idx[1]]; a.j = sp_M[idx[2]]; a.k = sp_M[idx[3]]; a.E = sp_CE[idx[4]]; a.db = sp_DB[idx[5]]; a.rl = sp_RL[idx[6]]; a.f0 = sp_FL[idx[7]]; a.f1 = sp_FL[idx[8]]; a.f2 = sp_FL[idx[9]];
-  SP_LAST("Crystal_F_H_StructureFactor_Partial(%s,%g,%d,%d,%d,%g,%g,%d,%d,%d)", a.c ? a.c->name : "NULL", a.E, a.i, a.j, a.k, a.db, a.rl, a.f0, a.f1, a.f2); b0 = sw_alloc();
+  a.c = sp_crs[idx[0]]; a.i = sp_M[idx[1]]; a.j = sp_M[idx[2]]; a.k = sp_M[idx[3]]; a.E = sp_energy(a.c, a.i, a.j, a.k, sp_CE[idx[4]]); a.db = sp_DB[idx[5]]; a.rl = sp_RL[idx[6]]; a.f0 = sp_FL[idx[7]]; a.f1 = sp_FL[idx[8]]; a.f2 = sp_FL[idx[9]];
+  SP_LAST("Crystal_F_H_StructureFactor_Partial(%s,%.17g,%d,%d,%d,%g,%g,%d,%d,%d)", a.c ? a.c->name : "NULL", a.E, a.i, a.j, a.k, a.db, a.rl, a.f0, a.f1, a.f2); b0 = sw_alloc();
   z1 = Crystal_F_H_StructureFactor_Partial(a.c, a.E, a.i, a.j, a.k, a.db, a.rl, a.f0, a.f1, a.f2, &e);
   z2 = Crystal_F_H_StructureFactor_Partial(a.c, a.E, a.i, a.j, a.k, a.db, a.rl, a.f0, a.f1, a.f2, NULL);
   if ((xv_bits(z1.re) != xv_bits(z2.re) && !(isnan(z1.re) && isnan(z2.re))) || (xv_bits(z1.im) != xv_bits(z2.im) && !(isnan(z1.im) && isnan(z2.im)))) sw_violation("Crystal_F_H_StructureFactor_Partial", "slot-dependent-result", "", sp_w);
   sw_contract(F_FHP, e, z1.re == 0.0 && z1.im == 0.0, isfinite(z1.re) && isfinite(z1.im), 0, sp_w);
   sp_leak("Crystal_F_H_StructureFactor_Partial", b0, redo_fh, &a); }
 static void cb_fh(const int *idx, void *u) { fh_a a; xrl_error *e = NULL; xrlComplex z1, z2; (void)u;
-  a.c = sp_crs[idx[0]]; a.i = sp_M[idx[1]]; a.j = sp_M[idx[2]]; a.k = sp_M[idx[3]]; a.E = sp_CE[idx[4]]; a.db = sp_DB[idx[5]]; a.rl = sp_RL[idx[6]];
-  SP_LAST("Crystal_F_H_StructureFactor(%s,%g,%d,%d,%d,%g,%g)", a.c ? a.c->name : "NULL", a.E, a.i, a.j, a.k, a.db, a.rl);
+  a.c = sp_crs[idx[0]]; a.i = sp_M[idx[1]]; a.j = sp_M[idx[2]]; a.k = sp_M[idx[3]]; a.E = sp_energy(a.c, a.i, a.j, a.k, sp_CE[idx[4]]); a.db = sp_DB[idx[5]]; a.rl = sp_RL[idx[6]];
+  SP_LAST("Crystal_F_H_StructureFactor(%s,%.17g,%d,%d,%d,%g,%g)", a.c ? a.c->name : "NULL", a.E, a.i, a.j, a.k, a.db, a.rl);
   z1 = Crystal_F_H_StructureFactor(a.c, a.E, a.i, a.j, a.k, a.db, a.rl, &e); z2 = Crystal_F_H_StructureFactor(a.c, a.E, a.i, a.j, a.k, a.db, a.rl, NULL);
   if ((xv_bits(z1.re) != xv_bits(z2.re) && !(isnan(z1.re) && isnan(z2.re))) || (xv_bits(z1.im) != xv_bits(z2.im) && !(isnan(z1.im) && isnan(z2.im)))) sw_violation("Crystal_F_H_StructureFactor", "slot-dependent-result", "", sp_w);
   sw_contract(F_FH, e, z1.re == 0.0 && z1.im == 0.0, isfinite(z1.re) && isfinite(z1.im), 0, sp_w); }
